@@ -120,6 +120,20 @@ def _walk_lark_tree(op, *, data_def=None) -> data_algebra.expr_rep.Term:
                             op_name, children, inline=True, method=False
                         )
                         return res
+                if (r_op.data == "comparison") and (nc > 3):
+                    # Python comparison chain: a < b < c means (a < b) and (b < c)
+                    vals = [
+                        _r_walk_lark_tree(r_op.children[i])
+                        for i in range(nc)
+                        if (i % 2) == 0
+                    ]
+                    tests = [
+                        getattr(vals[i], op_remap[ops_seen[i]])(vals[i + 1])
+                        for i in range(len(ops_seen))
+                    ]
+                    return data_algebra.expr_rep.kop_expr(
+                        "and", tests, inline=True, method=False
+                    )
                 # just linear chain ops
                 res = _r_walk_lark_tree(r_op.children[0])
                 for i in range((nc - 1) // 2):
